@@ -215,7 +215,9 @@ def handleInline (req : Json) : Except String Json := do
       match req.getObjVal? "adapt", r with
       | .ok aj, .ok em =>
         let varNames ← aj.getObjValAs? (List String) "varNames"
-        let imports ← aj.getObjValAs? (List Nat) "imports"
+        -- all opset imports of the inlined model as [domain, version] pairs; the model filters them
+        let importsAll ← aj.getObjValAs? (List (String × Nat)) "importsAll"
+        let imports := defaultImports importsAll
         let target ← aj.getObjValAs? Nat "target"
         let convJ := (aj.getObjVal? "converted").toOption.getD Json.null
         let conv ← if convJ.isNull then pure p.graph else parseGraph convJ
